@@ -672,7 +672,33 @@ def indep_cases(rng, tier):
                     c['pres'] = [pc]
             yield c
 
+LITERAL_SIGS = {'qcow2': (0, b'QFI\xfb'), 'qed': (0, b'QED\x00'), 'vhd': (0, b'conectix'), 'vhdx': (0, b'vhdxfile'), 'vmdk': (0, b'KDMV'),
+                'vdi': (0x40, b'\x7f\x10\xda\xbe'), 'iso': (32769, b'CD001'), 'luks': (0, b'LUKS\xba\xbe'), 'gpt': (510, b'\x55\xaa')}
+
+def near_miss_cases(rng, tier):
+    """for every format: its signature with the last byte altered (to a text byte, to 0x00/0xff, to last+1), and the whole
+    signature shifted by one byte, on zero and text backgrounds at lengths past the decision point: no format may be named"""
+    P = lambda off, b: [off, bytes(b).hex()]
+    for fmt, (off, sig) in LITERAL_SIGS.items():
+        variants = []
+        for last in {0x2e, 0x00, 0xff, (sig[-1] + 1) & 0xff, ord('A')} - {sig[-1]}:
+            variants.append(('last', [P(off, sig[:-1] + bytes([last]))]))
+        variants.append(('shift+1', [P(off, b'\x01'), P(off + 1, sig)]))
+        if off > 0: variants.append(('shift-1', [P(off - 1, sig), P(off + len(sig) - 1, b'\x01')]))
+        for isoid in ((b'NSR02', b'NSR03') if fmt == 'iso' else ()):
+            variants.append(('last', [P(off, isoid[:-1] + b'4')]))
+        lens = (34816, 40000) if fmt == 'iso' else (512, 600, 4096)
+        for lab, patches in variants:
+            for bg in ('z', 't%d' % rng.randrange(10**6)):
+                n = rng.choice(lens)
+                d = {'g': 'patch', 'n': n, 'bg': bg, 'p': patches}
+                yield mk_case(rng, d, n, 'near-miss:%s:%s' % (fmt, lab), style=rng.choice(['detect', 'one', 'mib']), allowed=rng.choice([None, None, [fmt], [fmt, 'raw']]),
+                              exp=None, kind='f')
+                if rng.random() < (0.25 if tier == 'quick' else 1.0):
+                    yield {'op': 'detect', 'd': d, 'k': 'detect:near-miss:' + fmt}
+
 def gen_cases(rng, tier):
+    yield from near_miss_cases(rng, tier)
     single = list(gen_cases_single(rng, tier))
     yield from indep_cases(rng, tier)        # first: their failures name a concrete PAIR of contents / allow-lists
     yield from single
